@@ -58,7 +58,28 @@ proof or correspondence for which the oracle found no failing input is reported 
 no-failing-input-found`, with the theorem or the disagreeing case named in the replay file. Known findings are
 matched by signature; a violation whose signature is not listed exits 1.
 
-### 9.4 Seeded changes
+### 9.4 Where the built machinery differs from §§2-8
+
+* File names: the correspondence runners are `harness/props/cNN.py` (one per property, each with `GEN`, `SOURCES`,
+  `RULE`, `ASSUMPTIONS`, `TRUSTED`, `run`, `replay`), the canonical dumps are `harness/irdump.py`, the shared
+  engines `harness/emodify.py` + `harness/listing_engine.py` (E-modify) and `harness/asm_engine.py` (E-asm); there is
+  no `corr_*.py` / `canon.py`.
+* Not built: the recording pytest plugin that would replay the repo's own suite through the models; automatic
+  shrinking of failing cases (replays are the generated case as it failed; the minimal witnesses in
+  `corpus/` and `known_findings.json` were minimised by hand); line-coverage measurement of the modelled files
+  (the evidence reports the input distribution - sizes, operation kinds, refusal classes, configurations - but not
+  Python line coverage).
+* Built as designed: translator, `lake build`, forbidden-token scan, `#print axioms` audit on every run,
+  `leanchecker` in the thorough tier, failing-input search with a larger budget and other seeds when a proof or the
+  correspondence breaks, `no-failing-input-found` verdicts, known-finding signatures, exit 2 for infrastructure
+  errors (including a runner that could not build or run some of its own cases).
+* No source hook was needed: `MANIFEST.hooks` is empty, all observation points are wrapped from the harness
+  (`gtirb_rewriting.rewriting.insert/delete`, the `_Streamer` / `_SymbolCreator` methods, `make_return_cache`).
+* E-modify is x86-64 only (ELF, and PE for the module-level tables); the assembler engine covers x86-64 (AT&T and
+  Intel), IA32, ARM64 and MIPS32, ELF and PE; the ABI engine covers all five registered ABIs; the DWARF engine both
+  byte orders and pointer sizes.
+
+### 9.5 Seeded changes
 
 Sixty changes were written by twenty sub-agents, one per property; each agent saw only the property's text and a
 scratch worktree of /repo, never /verif. Each change passes the repo's suite (331 tests) and comes with a
